@@ -261,6 +261,7 @@ func cmdCheck(args []string) {
 		"samples":       samples,
 		"functions_under_contract": funcs,
 		"vacuity_guards": map[string]int{"cover_obligations": nCover, "satisfiable": nCoverOK},
+		"counterexample_replays": map[string]int{"attempted": nReplays, "reproduced_on_real_code": nReplayed},
 		"solver_wins":   solverWins,
 		"solver_seconds_total": solverTime,
 		"unproved_not_claimed": unproved,
